@@ -189,3 +189,56 @@ def histories(rng, nrand=50):
                 edits.append(["add", [eid, rng.choice(G.RULES), G._side(l), G._side(r)]])
         out.append(_hist(rxns, edits, rng.choice([0, 1])))
     return out
+
+
+# ------------------------------------------------------------------ several classes, ill-conditioned stoichiometry
+
+def multi_class(rng, count=24, kind="multi-class"):
+    """Disjoint unions of 2-4 directed cycles (each strongly connected) with, in half of the cases, one class spoiled by an extra
+    one-way tail: weak reversibility must be decided PER linkage class (the whole complex graph is never strongly connected)."""
+    out = []
+    for k in range(count):
+        ncyc = rng.choice([2, 2, 3, 4])
+        lens = [rng.choice([2, 2, 3]) for _ in range(ncyc)]
+        spoil = (k % 2 == 1)
+        n = sum(lens) + (1 if spoil else 0)
+        sp = names(n, rng.choice(["abc", "num", "mix"]))
+        cx = [[[s, 1]] for s in sp]
+        sides = []
+        pos = 0
+        for L in lens:
+            c = list(range(pos, pos + L))
+            pos += L
+            for i in range(L):
+                sides.append((cx[c[i]], cx[c[(i + 1) % L]]))
+        if spoil:
+            sides.append((cx[rng.randrange(pos)], cx[pos]))          # tail into a fresh complex: no way back
+        rng.shuffle(sides)
+        sides = [([list(x) for x in l], [list(x) for x in r]) for l, r in sides]
+        out.append(dict(kind=kind, rxns=_ids(sides, rng, rng.choice(["two", "gen", "adv"])), iso=[],
+                        view=rng.choice(["hyper", "hyper", "bip_int", "bip_str"]),
+                        name="multi-class/%s%s" % ("-".join(map(str, lens)), "+tail" if spoil else ""),
+                        wr=not spoil, delta=0))
+    return out
+
+
+def ill_conditioned(rng, count=24, kind="ill-conditioned"):
+    """Stoichiometric matrices with multi-digit entries that are almost, or exactly, rank deficient: unimodular 2x2 blocks
+    (a, a+1; a+1, a+2) have a singular value ~ 1/(2a); exact multiples have rank 1.  The deficiency needs the EXACT rank."""
+    out = []
+    for k in range(count):
+        a = rng.choice([12, 99, 250, 700, 2500, 9000])
+        exact = (k % 3 == 0)
+        if exact:
+            c = [[a, a + 1], [2 * a, 2 * a + 2]]
+        else:
+            c = [[a, a + 1], [a + 1, a + 2]]
+        sp = rng.choice([("A", "B", "C"), ("X1", "X10", "X2"), ("P", "Q", "R")])
+        p1 = rng.choice([[], [[sp[2], 1]]])
+        p2 = ([[sp[2], 2]] if p1 else []) if exact else rng.choice([[], [[sp[2], 1]], [[sp[2], 2]]])
+        sides = [([[sp[0], c[0][0]], [sp[1], c[0][1]]], p1), ([[sp[0], c[1][0]], [sp[1], c[1][1]]], p2)]
+        if rng.random() < 0.5:
+            sides.append((sides[0][1], sides[0][0]))
+        rng.shuffle(sides)
+        out.append(dict(kind=kind, rxns=_ids(sides, rng, "gen"), iso=[], view=rng.choice(["hyper", "bip_int"])))
+    return out
